@@ -135,6 +135,19 @@ def _rho_ge_1(Bm) -> bool:
     return False
 
 
+def rho_class(Bm) -> str:
+    """nonnegative rational matrix: spectral radius '<1', '=1' or '>1' (exact: I - B is a nonsingular M-matrix iff all
+       leading principal minors are > 0, a possibly singular M-matrix iff all principal minors are >= 0)"""
+    if not _rho_ge_1(Bm): return "<1"
+    m = len(Bm)
+    Z = [[(Fraction(1) if i == j else Fraction(0)) - Bm[i][j] for j in range(m)] for i in range(m)]
+    for k in range(1, m + 1):
+        for idx in itertools.combinations(range(m), k):
+            if _det([[Z[i][j] for j in idx] for i in idx]) < 0:
+                return ">1"
+    return "=1"
+
+
 def _solve_frac(M, rhs):
     n = len(rhs)
     M = [row[:] + [rhs[i]] for i, row in enumerate(M)]
@@ -362,14 +375,31 @@ def multi_unchanged(m, s) -> Optional[str]:
 
 
 # ============================================================================= running one case
+class CaseTimeout(Exception):
+    pass
+
+
+CASE_TIMEOUT_S = 6.0
+
+
+def _on_alarm(signum, frame):
+    raise CaseTimeout(f"no result after {CASE_TIMEOUT_S:.0f} s (normal cases take milliseconds): does not terminate")
+
+
 def _call(f):
+    import signal
     with warnings.catch_warnings(record=True) as wl:
         warnings.simplefilter("always")
+        old = signal.signal(signal.SIGALRM, _on_alarm)
+        signal.setitimer(signal.ITIMER_REAL, CASE_TIMEOUT_S)
         try:
             res = f()
             exc = None
         except Exception as e:
             res, exc = None, e
+        finally:
+            signal.setitimer(signal.ITIMER_REAL, 0)
+            signal.signal(signal.SIGALRM, old)
     mism = any("index type mismatch" in str(w.message) for w in wl)
     return res, exc, mism
 
@@ -382,9 +412,27 @@ def run_case(case) -> List[Tuple[str, str, str]]:
     raise ValueError(fn)
 
 
+def where_raised(exc) -> str:
+    """innermost frame of the traceback that lies in fggs: 'file.py:function' (line number only in the detail)"""
+    import traceback
+    frames = [f for f in traceback.extract_tb(exc.__traceback__) if "/fggs/" in f.filename]
+    if not frames: return "?", ""
+    if isinstance(exc, CaseTimeout):
+        # the interrupted frame is arbitrary: name the (at most two) outermost library frames instead
+        chain = []
+        for f in frames:
+            if f.name in ("multi_solve", "multi_mv", "solve", "mv", "mm", "einsum", "solve_thunks") and f.name not in chain:
+                chain.append(f.name)
+        return ">".join(chain), " > ".join(f"{f.name}:{f.lineno}" for f in frames[:6])
+    f = frames[-1]
+    return f"{f.filename.split('/')[-1]}:{f.name}", f"{f.filename}:{f.lineno} `{(f.line or '').strip()[:80]}`"
+
+
 def _raise_row(exc, want):
     msg = str(exc).splitlines()[0][:160] if str(exc) else ""
-    return [("returns", f"raises-{type(exc).__name__}", f"observed {type(exc).__name__}: {msg}; expected {fmt(want)}")]
+    fn, loc = where_raised(exc)
+    return [("returns", f"raises-{type(exc).__name__}@{fn}",
+             f"observed {type(exc).__name__}: {msg} at {loc}; expected {fmt(want)}")]
 
 
 def run_sr_solve(case):
@@ -529,6 +577,7 @@ REGIMES = {
     "unit":  [0.0, 0.0, 1.0],                      # 0/1 matrices: permutations, identities (radius 1) or nilpotent
     "half":  [0.0, 0.5, 0.5],                      # row sums around 1
     "super": [0.0, 1.0, 2.0, 0.5],
+    "quarter": [0.0, 0.25, 0.25, 0.5, 0.5],       # rows often sum to exactly 1 with inexact pivots
     "inf":   [0.0, 0.0, 0.5, 1.0, INF],
     "all":   VALS,
 }
@@ -586,6 +635,12 @@ def gen_sr_cases(ctx: Ctx):
                     m = [[jv(s if p[i] == j else 0.0) for j in range(3)] for i in range(3)]
                     for bb in ([1.0, 0.0, 0.0], [0.0, 0.5, INF], [0.0, 0.0, 0.0], [1.0, 1.0, 1.0]):
                         yield {"fn": "sr_solve", "sr": sr, "dtype": dt, "a": m, "b": [jv(v) for v in bb]}
+            # row-stochastic dyadic matrices: spectral radius exactly 1 (all 729 in thorough, every 6th in quick)
+            srows = [r for r in itertools.product([0.0, 0.25, 0.5, 1.0], repeat=3) if sum(r) == 1.0]
+            for k, m in enumerate(itertools.product(srows, repeat=3)):
+                if not th and k % 6: continue
+                bb = [[1.0, 1.0, 1.0], [1.0, 0.0, 0.0], [0.0, 0.0, 0.5]][k % 3]
+                yield {"fn": "sr_solve", "sr": sr, "dtype": dt, "a": [[jv(v) for v in r] for r in m], "b": [jv(v) for v in bb]}
             nrand = 6000 if th else 700
             for k in range(nrand):
                 reg = list(REGIMES)[k % len(REGIMES)]
@@ -622,6 +677,13 @@ def gen_pt_cases(ctx: Ctx):
     tier = ctx.tier
     rng = ctx.rng("pt")
     reps = 6 if th else 2
+    for tau, ap, bp in HAND_MADE:
+        for sr in SEMIRINGS:
+            for reg in (list(REGIMES) if th else ["sub"]):
+                vals = [0.0, 1.0] if sr == "Bool" else REGIMES[reg]
+                bvals = [0.0, 1.0] if sr == "Bool" else B_VALS
+                yield {"fn": "pt_solve", "sr": sr, "dtype": "float64", "type": tau,
+                       "a": real_recipe(ap, rng, vals, 0.0), "b": real_recipe(bp, rng, bvals, 0.0)}
     for n in (1, 2, 3, 4):
         for tau in solve_types(n):
             apats = conforming_patterns([tau, tau], tier)
@@ -651,6 +713,26 @@ def gen_pt_cases(ctx: Ctx):
                                 continue
                             yield {"fn": "pt_solve", "sr": sr, "dtype": "float64", "type": tau,
                                    "a": real_recipe(ap, rng, vals, da), "b": real_recipe(bp, rng, bvals, db)}
+
+
+U_ = ["*", []]
+S1_ = ["+", 0, U_, 0]                       # SumAxis(0, unitAxis, 0): the one-summand sum of size 1
+# (type, pattern of a, pattern of b): row axes that are products with a size-1 sum factor, exactly what
+# PatternedTensor.flatten()/reshape produce from a (1,2)-shaped block whose first axis is SumAxis(0,unit,0)
+HAND_MADE = [
+    (["*", [["+", [["n", 1]]], ["n", 2]]],
+     {"pool": [2], "vaxes": [["P", 0], ["P", 0]], "storage": "contig"},
+     {"pool": [2], "vaxes": [["*", [S1_, ["P", 0]]]], "storage": "contig"}),
+    (["*", [["+", [["n", 1]]], ["n", 2]]],
+     {"pool": [2, 2], "vaxes": [["P", 0], ["P", 1]], "storage": "contig"},
+     {"pool": [2], "vaxes": [["*", [S1_, ["P", 0]]]], "storage": "contig"}),
+    (["*", [["+", [["n", 1]]], ["n", 2]]],
+     {"pool": [2], "vaxes": [["*", [S1_, ["P", 0]]], ["*", [S1_, ["P", 0]]]], "storage": "contig"},
+     {"pool": [2], "vaxes": [["*", [S1_, ["P", 0]]]], "storage": "contig"}),
+    (["*", [["n", 2], ["+", [["n", 1]]]]],
+     {"pool": [2], "vaxes": [["P", 0], ["P", 0]], "storage": "contig"},
+     {"pool": [2, 2], "vaxes": [["*", [["P", 0], S1_]], ["P", 1]], "storage": "contig"}),
+]
 
 
 BLOCK_SHAPES = [[], [2], [1, 2]]
@@ -734,16 +816,16 @@ def regime_of(case) -> str:
     n = len(A)
     fin = [[Fraction(v) if v != INF else Fraction(0) for v in r] for r in A]
     if n and case["sr"] in ("Real", "Log"):
-        f.append("rho>=1" if _rho_ge_1(fin) else "rho<1")
+        f.append("rho" + rho_class(fin))
     return "+".join(f) or "plain"
 
 
 def fail_key(f) -> str:
     c = f["case"]
+    if f["keyclass"].startswith("raises"):
+        return f"{c['fn']}:{f['keyclass']}".replace("raises-CaseTimeout", "hangs")
     k = f"{c['fn']}:{c['sr']}:{f['keyclass']}"
-    if c["fn"] in ("multi_solve", "multi_mv") and c.get("transpose"):
-        pass
-    if f["keyclass"].startswith("value") or f["keyclass"].startswith("raises"):
+    if f["keyclass"].startswith("value"):
         k += ":" + regime_of(c)
     return k
 
@@ -766,7 +848,7 @@ FNNAME = {"sr_solve": "fggs.semirings.Semiring.solve", "pt_solve": "fggs.indices
 # ============================================================================= workers / driver
 def _worker(cases):
     torch.set_num_threads(1)
-    out = {"n": {}, "digests": [], "fails": [], "oos": 0, "oos_samples": [], "samples": []}
+    out = {"n": {}, "fcount": {}, "digests": [], "fails": [], "oos": 0, "oos_samples": [], "samples": []}
     for case in cases:
         try:
             res = run_case(case)
@@ -782,7 +864,11 @@ def _worker(cases):
             out["digests"].append((fn, hashlib.md5(canon(case).encode()).digest()[:8]))
             if len(out["samples"]) < 1: out["samples"].append(case)
         for clause, kc, detail in res:
-            out["fails"].append({"case": case, "clause": clause, "keyclass": kc, "detail": detail})
+            f = {"case": case, "clause": clause, "keyclass": kc, "detail": detail}
+            k = fail_key(f)
+            out["fcount"][k] = out["fcount"].get(k, 0) + 1
+            if out["fcount"][k] <= 2 * MAX_FAIL_PER_KEY:
+                out["fails"].append(f)
     return out
 
 
@@ -872,10 +958,13 @@ def run_bounded(ctx: Ctx) -> Report:
                                    exhaustive=False))
     fails.sort(key=lambda f: (fail_key(f), len(canon(f["case"])), canon(f["case"])))
     count: Dict[str, int] = {}
+    for r in results:
+        for k, v in r["fcount"].items(): count[k] = count.get(k, 0) + v
+    kept: Dict[str, int] = {}
     for f in fails:
         k = fail_key(f)
-        count[k] = count.get(k, 0) + 1
-        if count[k] > MAX_FAIL_PER_KEY: continue
+        kept[k] = kept.get(k, 0) + 1
+        if kept[k] > MAX_FAIL_PER_KEY: continue
         c = f["case"]
         rep.failures.append(Failure(obligation=f"{FNNAME[c['fn']]}.{f['clause']}", what=fail_what(f),
                                     replay={"module": MODULE, "func": "replay_case", "case": c},
